@@ -14,9 +14,12 @@
 //   GA seed mean sd n     Random::Gaussian(mean,sd); setSeed; n x getValue
 //   RS seed n k           Uniform: setSeed, n draws, setSeed again, k draws (reseeding restarts the stream)
 //   DEF n                 a fresh Random::Uniform() without setSeed: prints n values (seed = construction count)
-//   EX min max r          the expression of Uniform::getValue/getIntValue evaluated in C++ double arithmetic for a
-//                         given unit value r: prints bits(min + r*(max-min)) and (int)floor of it (validates the
-//                         Flocq binary64 model on boundary r; the use of the expression by Random is tied by UR/UI)
+//   EX min max r          the expressions of Uniform::getValue/getIntValue evaluated in C++ double arithmetic for a
+//                         given unit value r: bits and (int)floor of the pre-fix value min + r*(max-min), then of the
+//                         value clamped as in commit 181ff92a (validates the Flocq binary64 model, incl. Bpred =
+//                         nextafter, on boundary r; the use of the expression by Random is tied by UR/UI/AT)
+//   AT seed min max k     Uniform(min,max); setSeed; the k-th getIntValue() (1-based), the k-th getValue() of an
+//                         identical twin, and the unit value of that draw (twin Uniform(0,1))
 //   SRCH seed n           failing-input search: the property's predicates on n generated cases (see below)
 //   WIT seed min max lim  first draw (1-based) at which Uniform(min,max).getIntValue() >= max or < min, and the
 //                         unit-interval value of that draw (from a twin Uniform(0,1) with the same seed)
@@ -113,9 +116,20 @@ int main() {
         } else if (cmd == "EX") {
             volatile double mn = ofBits(rdhex(is)), mx = ofBits(rdhex(is)), r = ofBits(rdhex(is));
             volatile double range = mx - mn; volatile double p = r * range; volatile double v = mn + p;
-            double fl = std::floor(v);
-            printf("%llx ", (unsigned long long)bitsOf(v));
-            if (fl >= -2147483648.0 && fl <= 2147483647.0) printf("%d ", (int)fl); else printf("x ");
+            volatile double c = v;
+            if (v >= mx && mn < mx) c = std::nextafter((double)mx, (double)mn);
+            for (int k = 0; k < 2; ++k) {
+                double x = k ? (double)c : (double)v; double fl = std::floor(x);
+                printf("%llx ", (unsigned long long)bitsOf(x));
+                if (fl >= -2147483648.0 && fl <= 2147483647.0) printf("%d ", (int)fl); else printf("x ");
+            }
+        } else if (cmd == "AT") {
+            int seed; long long k; is >> seed; uint64_t mn = rdhex(is), mx = rdhex(is); is >> k;
+            Random::Uniform u(ofBits(mn), ofBits(mx)), w(ofBits(mn), ofBits(mx)), t(0.0, 1.0);
+            u.setSeed(seed); w.setSeed(seed); t.setSeed(seed);
+            int iv = 0; double rv = 0, r = 0;
+            for (long long i = 1; i <= k; ++i) { iv = u.getIntValue(); rv = w.getValue(); r = t.getValue(); }
+            printf("%d %llx %llx ", iv, (unsigned long long)bitsOf(rv), (unsigned long long)bitsOf(r));
         } else if (cmd == "SRCH") {
             int seed, n; is >> seed >> n;
             long long evals = 0; int fails = 0;
